@@ -1053,6 +1053,7 @@ package lang
 
 //@ func regex [C01,C06]
 //@   implements parseRule.prefix
+//@   reveal tableOK
 
 //@ func identifier [C01,C06]
 //@   implements parseRule.prefix
